@@ -1,5 +1,6 @@
-(* C06: TrajectoryParser.parse_grounded_numeric_fluent (constructed with a problem) checks the argument types through a dict
-   keyed by the object NAME (finding D31).  Without a repeated argument that is the positional rule; with one it is not.
+(* C06: TrajectoryParser.parse_grounded_numeric_fluent (constructed with a problem) checked the argument types through a dict
+   keyed by the object NAME (finding D31, repaired in 3c74fae: Model/TypeSites.trajectory_fluent_before_D31 is the old function,
+   trajectory_fluent the current one).  Without a repeated argument the old check was the positional rule; with one it was not.
    Also: the local copy of parse_types with the '(:types - (x))' corner (Model/TypeSites.parse_types_code) agrees with the
    shared model on every section the shared model accepts and on every token list made of names. *)
 From Coq Require Import List String Bool Arith.
@@ -57,9 +58,9 @@ Qed.
 
 (* partial: a trajectory fluent WITHOUT a repeated argument is checked by the positional rule *)
 Lemma trajectory_fluent_nodup_lemma (dom : mdomain) objs f args :
-  NoDup args -> trajectory_fluent dom objs f args = trajectory_fluent_positional dom objs f args.
+  NoDup args -> trajectory_fluent_before_D31 dom objs f args = trajectory_fluent dom objs f args.
 Proof.
-  intros Hnd. unfold trajectory_fluent, trajectory_fluent_positional.
+  intros Hnd. unfold trajectory_fluent_before_D31, trajectory_fluent.
   destruct (dget (d_funcs dom) f) as [sg|]; [|reflexivity].
   destruct (negb (Nat.eqb (List.length args) (List.length sg))); [reflexivity|].
   destruct (mapM (type_of_name dom objs) args) as [tys|k] eqn:Em; cbn [bind]; [|reflexivity].
@@ -71,7 +72,7 @@ Proof.
 Qed.
 
 Lemma trajectory_fluent_positional_lemma (dom : mdomain) objs f args :
-  trajectory_fluent_positional dom objs f args = Ok tt <->
+  trajectory_fluent dom objs f args = Ok tt <->
   exists sg tys, dget (d_funcs dom) f = Some sg /\ List.length args = List.length sg /\
                  mapM (type_of_name dom objs) args = Ok tys /\
                  forall t r, In (t, r) (combine tys (dvalues sg)) -> is_sub_type (d_types dom) t r = true.
@@ -79,7 +80,7 @@ Proof. exact (problem_fluent_lemma dom objs f args). Qed.
 
 Lemma trajectory_fluent_partial_lemma (dom : mdomain) objs f args :
   NoDup args ->
-  (trajectory_fluent dom objs f args = Ok tt <->
+  (trajectory_fluent_before_D31 dom objs f args = Ok tt <->
    exists sg tys, dget (d_funcs dom) f = Some sg /\ List.length args = List.length sg /\
                   mapM (type_of_name dom objs) args = Ok tys /\
                   forall t r, In (t, r) (combine tys (dvalues sg)) -> is_sub_type (d_types dom) t r = true).
@@ -96,23 +97,23 @@ Definition t_objs : pydict string := [("oa", "a"); ("ob", "b")].
 (* (= (f oa oa) 1): the second argument is no b - accepted;  (= (g oa oa ob) 1): well typed - refused *)
 Lemma trajectory_fluent_refuted_lemma :
   exists (dom : mdomain) (objs : pydict string),
-    (exists f args, trajectory_fluent dom objs f args = Ok tt /\
-                    trajectory_fluent_positional dom objs f args = Err EAssert) /\
-    (exists f args, trajectory_fluent dom objs f args = Err EAssert /\
-                    trajectory_fluent_positional dom objs f args = Ok tt).
+    (exists f args, trajectory_fluent_before_D31 dom objs f args = Ok tt /\
+                    trajectory_fluent dom objs f args = Err EAssert) /\
+    (exists f args, trajectory_fluent_before_D31 dom objs f args = Err EAssert /\
+                    trajectory_fluent dom objs f args = Ok tt).
 Proof.
   exists t_dom, t_objs. split.
   - exists "f", ["oa"; "oa"]. split; vm_compute; reflexivity.
   - exists "g", ["oa"; "oa"; "ob"]. split; vm_compute; reflexivity.
 Qed.
 
+(* the current function on the same inputs, and on fluents without a repeated argument *)
 Lemma trajectory_fluent_example_lemma :
-  NoDup ["oa"; "ob"] /\ trajectory_fluent t_dom t_objs "f" ["oa"; "ob"] = Ok tt /\
+  trajectory_fluent t_dom t_objs "f" ["oa"; "oa"] = Err EAssert /\
+  trajectory_fluent t_dom t_objs "g" ["oa"; "oa"; "ob"] = Ok tt /\
+  trajectory_fluent t_dom t_objs "f" ["oa"; "ob"] = Ok tt /\
   trajectory_fluent t_dom t_objs "f" ["ob"; "oa"] = Err EAssert.
-Proof.
-  split; [|split; vm_compute; reflexivity].
-  constructor; [intros [H|[]]; discriminate|]. constructor; [intros []|constructor].
-Qed.
+Proof. repeat split; vm_compute; reflexivity. Qed.
 
 (* ---------- the local copy of parse_types with the '- (x)' corner ---------- *)
 Lemma collect_decls_code_extends_n : forall n toks same d r,
